@@ -23,9 +23,10 @@ type LoopContract struct {
 	Invariants []Clause
 	Decreases  *Clause
 	Uses       []Clause
-	Entry      []Clause // `loop N entry <cond>`: checked when the loop is entered (not assumed, not an invariant)
-	Steps      []Clause // `loop N step <cond>`: must hold at the end of every iteration (before the post statement)
-	Returns    []Clause // `loop N returns <cond>`: must hold at every return statement lexically inside the loop
+	Exits      map[int][]Clause // `loop N exit#k <cond>`: reason that must hold at the k-th statement leaving the loop early
+	Entry      []Clause         // `loop N entry <cond>`: checked when the loop is entered (not assumed, not an invariant)
+	Steps      []Clause         // `loop N step <cond>`: must hold at the end of every iteration (before the post statement)
+	Returns    []Clause         // `loop N returns <cond>`: must hold at every return statement lexically inside the loop
 }
 
 type FuncContract struct {
@@ -413,6 +414,17 @@ func (cs *ContractSet) loadFile(path string) error {
 			cl, err := mk(strings.TrimSpace(f[2]), l.no)
 			if err != nil {
 				return err
+			}
+			if strings.HasPrefix(f[1], "exit#") {
+				k, err := strconv.Atoi(strings.TrimPrefix(f[1], "exit#"))
+				if err != nil {
+					return fmt.Errorf("%s:%d: bad loop exit ordinal %q", path, l.no, f[1])
+				}
+				if lc.Exits == nil {
+					lc.Exits = map[int][]Clause{}
+				}
+				lc.Exits[k] = append(lc.Exits[k], cl)
+				continue
 			}
 			switch f[1] {
 			case "invariant":
